@@ -1256,7 +1256,7 @@ def _emit_fn(asm, out, unit, kv, block, default_props):
 
 REFUTE_PAT = re.compile(
     r'postcondition not satisfied|invariant not satisfied|precondition not satisfied|assertion failed|'
-    r'possible arithmetic (underflow/)?overflow|possible division by zero|decreases not satisfied|'
+    r'possible arithmetic (underflow/)?overflow|possible division by zero|decreases not satisfied|could not prove termination|'
     r'possible bit shift underflow/overflow|loop must have a decreases|'
     r'unwrap|index out of bounds|could not show termination|assertion not satisfied|recommendation not met', re.I)
 RLIMIT_PAT = re.compile(r'resource limit|rlimit|timed out|timeout|out of memory', re.I)
